@@ -28,6 +28,19 @@ def reference_history(idx, variant=0):
     return {"id": "ref%d" % idx, "seed": idx, "messages": m, "outcomes": outcomes, "script": script, "strict": 0, "conc": (10, 20), "announce": (120, 120)}
 
 
+def sequential_history(idx):
+    """one message delivered completely (its job slots are released), then a second one with several recipients per channel:
+    failing reads / opens of the second one's recipient lists are explored (what a finished job leaves in its slot must not
+    decide the fate of the next)"""
+    m = [{"body": b"Subject: a\n\nA\n", "sender": b"sq%d@origin.test" % idx, "rcpts": [b"q%dl0@local.test" % idx, b"q%dr0@remote.test" % idx]},
+         {"body": b"Subject: b\n\nB\n", "sender": b"sq%d@origin.test" % idx,
+          "rcpts": [b"q%dl1@local.test" % idx, b"q%dl2@local.test" % idx, b"q%dr1@remote.test" % idx, b"q%dr2@remote.test" % idx]}]
+    outcomes = {r.decode(): "K" for mm in m for r in mm["rcpts"]}
+    outcomes["sq%d@origin.test" % idx] = "K"
+    script = [("inject", 0), ("answer", "fifo"), ("answer", "fifo"), ("inject", 1), ("answer", "fifo"), ("signal", "ALRM"), ("answer", "fifo"), ("nextdue", 0), ("answer", "fifo")]
+    return {"id": "seq%d" % idx, "seed": idx, "messages": m, "outcomes": outcomes, "script": script, "strict": 0, "conc": (10, 20), "announce": (120, 120)}
+
+
 def count_mutating(tree, ck, h, role):
     """number of mutating calls of `role` in the fault-free run of h"""
     import histories as H
@@ -139,6 +152,22 @@ def main():
                     h = reference_history(4000 + fi)
                     h["fault"] = {"role": "qmail-send", "call": call, "k": k, "what": "fail %d" % errno.EIO, "obj": obj}
                     h["id"] = "fault-%s-%s-%d" % (call, obj, k)
+                    hists.append(h)
+        # the cleaner cannot remove a file (each of its unlinks in turn): the daemon must not go on as if it had
+        for k in range(1, 9):
+            fi += 1
+            h = reference_history(4500 + fi)
+            h["fault"] = {"role": "qmail-clean", "call": "unlink", "k": k, "what": "fail %d" % errno.EIO}
+            h["id"] = "fault-clean-unlink-%d" % k
+            hists.append(h)
+        # failing reads / opens of the recipient lists of a message that comes after a completely delivered one
+        for obj in ("local", "remote"):
+            for call in ("read", "open"):
+                for k in range(1, 8 if thorough else 6):
+                    fi += 1
+                    h = sequential_history(4700 + fi)
+                    h["fault"] = {"role": "qmail-send", "call": call, "k": k, "what": "fail %d" % errno.EIO, "obj": obj}
+                    h["id"] = "fault-seq-%s-%s-%d" % (call, obj, k)
                     hists.append(h)
         for call, ks in (("open", (1, 2)), ("write", (1, 2)), ("fsync", (1, 2)), ("link", (1, 2)), ("read", (1, 3))):
             for k in ks:
